@@ -167,10 +167,12 @@ def random_tree(rng, budget, depth=0):
 # ----------------------------------------------------------------------------- placements
 def host_document(placement, frags, rng=None, use_default=False, lead_text=None):
     """Wrap fragments into the host element of a placement. Returns xml str or None if not applicable."""
-    if placement == "Single":
-        if len(frags) != 1:
+    if placement == "Single":  # several elements for a single-valued wildcard are kept under an anonymous wrapper
+        return "<Single>" + "".join(to_xml(f, {}, use_default) for f in frags) + "</Single>"
+    if placement == "TwoWild":  # elements of namespace P first, unqualified ones after them
+        if [f.ns for f in frags] != sorted([f.ns for f in frags], key=lambda n: n is None) or any(f.ns not in (None, P) for f in frags):
             return None
-        return f"<Single>{to_xml(frags[0], {}, use_default)}</Single>"
+        return "<TwoWild>" + "".join(to_xml(f, {}, use_default) for f in frags) + "</TwoWild>"
     if placement == "Many":
         return "<Many>" + "".join(to_xml(f, {}, use_default) for f in frags) + "</Many>"
     if placement == "Mixed":
@@ -399,6 +401,14 @@ def run_shard(ctx):
         else:
             for f in frags:
                 f.tail = ""
+        if pl == "TwoWild":
+            while len(frags) < 3:
+                frags.append(random_tree(rng, [3]))
+            cut = rng.randrange(0, len(frags) + 1)
+            for j, f in enumerate(frags):
+                f.ns, f.tail = (P if j < cut else None), ""
+                if rng.random() < 0.6:
+                    f.local = rng.choice(["a", "b"])  # the same local name in both namespaces
         if pl in ("Local", "Target", "Other"):
             want = {"Local": None, "Target": P, "Other": Q}[pl]
             for f in frags:
